@@ -118,13 +118,13 @@ func (c *vxCollector) Add(a ast.Atom) bool { c.atoms = append(c.atoms, a); retur
 
 // VxC05Variant: canonical run vs. variant VAR on template TPL with K symbolic facts.
 func VxC05Variant() {
-	t := vxTemplates()[vxParam("TPL", 0)]
+	t := vxTemplateFor(vxParam("TPL", 0))
 	k := vxParam("K", 2)
 	variant := vxParam("VAR", 0)
 	canon := vxRun{rules: t.rules, edb: t.edb, store: vxNewStore(0), pr: vxID}
 	vxMapOrder(0)
 	s0, err0 := vxEvalRun(t, k, canon)
-	if vxParam("TPL", 0) != 12 {
+	if vxParam("TPL", 0) != 12 && !t.gen {
 		vxAssert(err0 == nil, "canonical-run-ok")
 	}
 
